@@ -29,6 +29,8 @@ var ipv6Ctxs = []ctx{
 	{"1:2:3:4:5:6:7", ""}, {"1:2:3:4:5:6:", ""}, {"1:2:3:4:5:6", ":8"}, {"", ":2:3:4:5:6:7:8"}, {"1::3:4:5:6:7", ""}, {"::", ":3:4:5:6:7:8"},
 	{"1:2:3:4:5:6:1.2.3", ""}, {"1:2:3:4:5:6:", ".2.3.4"}, {"::1.2.", ".4"}, {"1:2:3:4:5::", ".2.3.4"}, {"::ffff:", ".0.0.1"}, {"1:0:0:2:0:0:", ""},
 	{"1:0:0:2:3:4:", ":0"}, {"0:0:0:1:2:0:0", ""}, {"1:2:3:4:5:6:7:8", ""}, {"1:2::", ":7:8"}, {"1:2:3:4:5:6:1.2.3.4", ""}, {"::1.2.3.4", ""},
+	// the longest texts: 39 characters all-hex, 40..45 with a dotted tail
+	{"1111:2222:3333:4444:5555:6666:7777:8", ""}, {"1111:2222:3333:4444:5555:6666:1", ".255.255.255"}, {"abcd:ef01:2345:6789:abcd:ef01:255.255.255.2", ""},
 }
 
 // VerifC08HostIPv6Shapes: long address shapes with a window of 0..K symbolic bytes at one position.
